@@ -41,8 +41,8 @@ class C15(BaseCheck):
                  'repository\'s own test use)',)
   QUICK_CASES = 640
   THOROUGH_CASES = 60000
-  QUICK_WALL = 40
-  THOROUGH_WALL = 300
+  QUICK_WALL = 180
+  THOROUGH_WALL = 1800
   MIN_DISTINCT = 10
 
   def setup(self, env, tier):
